@@ -32,3 +32,10 @@ Proof. exact has_road_none_winner. Qed.
 (* tie (G): Kind.is_road of the tree under test is the model's kind_is_road (walls are not road pieces) *)
 Theorem C02_tie_kind_is_road : Consts.kind_is_road = map kind_is_road [Flat; Standing; Capstone].
 Proof. exact TieRoad.tie_road_kinds. Qed.
+
+(* ---- about the function regenerated from the source (gen/GameGen.v; has_road/_walk enter as Road.has_road) ---- *)
+From TV Require Import model.PySem proofs.GameGenEq proofs.GameGenCor.
+From TV Require gen.GameGen.
+(* the translated Position.winner reports exactly the outcome the property describes *)
+Theorem C02_source_winner_outcome : forall p, RoadSpec.wf_pos p -> forall r, RoadSpec.outcome p r <-> GameGen.winner p = Ok r.
+Proof. exact gen_winner_outcome. Qed.
